@@ -5,14 +5,14 @@ A = "explicit-state model checking of the implementation: BFS over histories of 
 B = "bounded-exhaustive enumeration of an explicit finite input space executed on the real code, oracle from an independent reference"
 CHECKS = {
  "C01": ("engine-a", "model_checking", A,
-         "every history of public mutator calls (valid and invalid arguments, proxy outer pins included) up to the stated depth from five seed states, under two set-iteration orders; ownership and pin-wire invariants in every reached state, permutation clause on every reorder",
-         "bounded: depth 2-3 (quick) / 3-4 (thorough) from 5 seeds; trusted: vlib/wf.py, CPython"),
+         "every history of public mutator calls (valid and invalid arguments, proxy outer pins included) up to the stated depth from the seed states of scenarios S1-S14 and the DEFAULT naming scopes (bulk arguments as lists, sets, generators, duplicates, held collections and live views), under two set-iteration orders; ownership and pin-wire invariants in every reached state, permutation clause on every reorder",
+         "bounded: depth 2-3 (quick) / 3-4 (thorough) per scenario; trusted: vlib/wf.py, CPython"),
  "C02": ("engine-a", "model_checking", A,
          "every history of definition/port/pin edits and instance create/re-point/un-reference/remove calls up to the stated depth from seeds with 0, 1 and 2 live instances (children and top instances); reference-set and outer-pin mirror invariant in every state, connection-preservation clause on every accepted re-point",
          "bounded as C01; an outer pin counts as dropped once it was observed stored and no longer is"),
  "C10": ("engine-a", "model_checking", A,
          "per naming scope x policy (DEFAULT, EDIF): all histories of create/add/remove/bulk-remove/re-add/rename/identifier set-delete-pop/name deletion/clone over colliding names; every transition compared with a scan-based prediction (refused iff duplicate or illegal), every exact lookup compared with a scan in every state; the canonical state includes the name index's hidden tables",
-         "bounded: depth 2 (quick) / 3 (thorough) per scope; names {a,A,b}, identifiers {a,A,b,1x}; policy fixed per run"),
+         "bounded: depth 2 (quick) / 3 (thorough) per scope; names {a,A,b}, identifiers {a,A,b,1x} plus the length boundaries; policy fixed per scope except in the mixed-policy scenario (an EDIF tree joined by DEFAULT-built orphans); exact lookups also on reader-built netlists and their clones"),
  "C14": ("engine-a", "model_checking", A,
          "in every state reached in the C01/C02/C10 scenario spaces every event of the alphabet is fired with every pool object of the accepted type; each refused call is compared with its pre-state (identity-level snapshot incl. name index, then all exact lookups)",
          "bounded as C01/C10; a call is refused iff it raises"),
@@ -33,7 +33,7 @@ CHECKS = {
          "bounded as C08; root semantics taken from the docstrings; is_unique judged for instance references only"),
  "C05": ("engine-b", "model_checking", B,
          "EDIF texts rendered by an independent writer (vlib/edif_writer.py) from abstract designs - base designs x rendering options (reference letter case, rename style, libraryRef present/omitted, comments, design reference case) x every permutation and every non-empty subset of the bits of each bus net, plus F_hier designs - and the bundled .edf examples (vs an independent s-expression reading) are parsed by the real reader; canonical structure incl. identifiers, original names, property types, member indices, bus merging and the top design must equal the abstract design; well-formedness",
-         "bounded: 3 base designs, bus width 3, F_hier K1/K8 (quick) + K2/K5 (thorough), bundled files under a byte cap; trusted: the independent writer and s-expression reader; port base index is not compared (not in the statement)"),
+         "bounded: 8 base designs x 144 option sets, bus width 3, F_hier K1/K8 (quick) + K2/K5 (thorough), bundled files under a byte cap; trusted: the independent writer and s-expression reader; port base index is not compared (not in the statement)"),
  "C03": ("engine-b", "model_checking", B,
          "every netlist of the input space - API-built base designs x variants (undefined direction, reversed declaration order, bus base index 5 with pins listed in another order, 1-pin array ports, names needing rename, typed properties), the F_hier family incl. leaves declared after their users, and reader-built netlists (bundled .edf, independent-writer texts: idempotence) - is written by the real composer and read back by the real reader and by an independent s-expression interpreter; name-keyed canonical structures must agree",
          "bounded: see coverage.bounds_completed; library/cell order and port base index not compared (not in the statement); trusted: vlib/canon.py, vlib/sexpr.py"),
